@@ -63,7 +63,7 @@ from apischema.serialization.serialized_methods import (
     get_serialized_methods,
 )
 from apischema.type_names import TypeNameFactory, get_type_name
-from apischema.types import AnyType, UndefinedType
+from apischema.types import AnyType, NoneType, UndefinedType
 from apischema.typing import get_args, get_origin, is_typed_dict, is_union
 from apischema.utils import (
     context_setter,
@@ -515,20 +515,28 @@ class SerializationSchemaBuilder(
             )
             for field in fields
             if not field.is_aggregate
-            for required in [
-                field.required
-                if is_typed_dict(get_origin_or_type(tp))
-                else not field.skippable(
+            for skippable in [
+                field.skippable(
                     settings.serialization.exclude_defaults,
                     settings.serialization.exclude_none,
                 )
+            ]
+            for required in [
+                # a required key of a TypedDict can still be skipped (None, Undefined)
+                field.required and not skippable
+                if is_typed_dict(get_origin_or_type(tp))
+                else not skippable
             ]
         ] + [
             Property(
                 AliasedStr(serialized.alias),
                 serialized.func.__name__,
                 serialized.ordering,
-                not is_union_of(types["return"], UndefinedType),
+                not is_union_of(types["return"], UndefinedType)
+                and not (
+                    settings.serialization.exclude_none
+                    and is_union_of(types["return"], NoneType)
+                ),
                 full_schema(
                     self.visit_with_conv(types["return"], serialized.conversion),
                     get_method_schema(tp, serialized),
